@@ -52,6 +52,11 @@ func refFaults(lines []refLine) []refFault {
 				switch ti {
 				case tTitle, tVersion, tDescription, tProtocol, tBaseURL, tBodyAny, tHeaders:
 					ff = append(ff, refFault{"second singleton child", j, i})
+				case tTags:
+					// a second Tags directive under a method (a URL-level pair only matters to a method that falls back on it)
+					if refIsMethod(lines[lines[i].parent].t) {
+						ff = append(ff, refFault{"second singleton child", j, i})
+					}
 				}
 			}
 			// a blank Title and an ordinary Title are two Titles as well
